@@ -108,6 +108,10 @@ def trace_family(pid, tier, work, mc, jobs, level_note, rule, extra_cov=None, wo
     classes, samples = set(), []
     ntraces = nlines = 0
     for j in done:
+        if getattr(j, "race_report", None) and pid != "C10":
+            # freedom from data races is part of C10 only; here the run is used for its trace
+            C.log("note: the race detector reported a data race during %s (decided by C10, not by this check)" % j.name)
+            j.race_report = None
         if getattr(j, "race_report", None):
             note = "the race detector reported a data race while driver %s ran:\n%s" % (j.name, j.race_text)
             rp = C.save_replay(pid, [j.race_report, os.path.join(work, j.name + ".script.json")], note)
@@ -248,7 +252,6 @@ c02 = pool_prop(
     "incl. non-hosts and peers sharing the client's wallet, reconnects between updates); every balance and the balance "
     "in every update reply must equal the model's floor(elapsed*price/interval) per active peer",
     lambda tier: [("VipStoreMC", "VipStoreMC_bal.cfg")] + ([("VipPoolMC", "VipPoolMC_bill_q.cfg")] if tier == "quick" else [("VipPoolMC", "VipPoolMC_bill.cfg")]),
-    cfg=dict(minbal="off"),
     weights=dict(update=50, sleep=20, forged=2, withdraw=1, peer=4, close=1, reopen=1, mode=1, stale=1, addnode=6, reconnect=6))
 
 c03 = pool_prop(
@@ -265,7 +268,8 @@ c04 = pool_prop(
     "signature byte, other key, empty/garbage/short/zero signature, identity style swap, legacy payload, v+27, 0x prefix) "
     "at random points of valid sessions; compared: accepted exactly if unaltered",
     lambda tier: [("VipStoreMC", "VipStoreMC_nonce.cfg")] + ([("VipPoolMC", "VipPoolMC_bill_q.cfg")] if tier == "quick" else [("VipPoolMC", "VipPoolMC_bill.cfg")]),
-    weights=dict(forged=45, update=20, sleep=6, legacy=6))
+    cfg=dict(walletcase=True),
+    weights=dict(forged=45, update=20, sleep=6, legacy=6, addnode=8, withdraw=6, credit=3))
 
 c05p = None
 
